@@ -65,7 +65,7 @@ def inUnits : List String :=
 
 def inBase : List String :=
   ["F:_sanitize_unit_system", "F:_check_em_conversion", "F:raise:UnitsNotReducible", "F:_em_conversion",
-   "F:get_base_equivalent", "F:get_conversion_factor"]
+   "F:get_base_equivalent", "F:get_conversion_factor", "F:dtype"]
 
 def setitem : List String := ["F:to", "W:super().__setitem__"]
 
@@ -75,8 +75,10 @@ def unitSimplify : List String := ["F:_cancel_mul", "W:self.expr"]
     unary path: kernel, then the unit rule; binary path: coercion, the `power` refusals, the K/R
     refusal, the `==`/`!=` early return (which writes `out`), the dimension refusals, the
     second-operand conversion, the unit rule, the kernel, the dimensionless rescale, the
-    offset-temperature refusal (AFTER the kernel); `clip`; the result wrap-up; the re-entrant
-    `multiply(out, mul, out=out)`; the unit label -/
+    offset-temperature refusal (AFTER the kernel); `clip`; the result wrap-up (in the helper
+    `_wrap_ufunc_output` since fix 4368a3d); the post-multiplication of the raw buffer
+    `multiply(out_func, mul, out=out_func)` (since fix db741b8; before: `multiply(out, mul, out=out)`,
+    a nested `__array_ufunc__` call); the unit label -/
 def arrayUfunc : List String :=
   ["F:astype", "W:out.dtype", "W:copyto(out)",
    "F:in_units", "W:func(out=out_func)", "F:_apply_power_mapping", "F:_ufunc_registry[]",
@@ -90,10 +92,12 @@ def arrayUfunc : List String :=
    "F:unit_operator", "W:func(out=out_func)", "W:np.multiply(out=out_func)", "F:Unit",
    "F:raise:InvalidUnitOperation",
    "F:to", "W:ufunc(out=_out)", "F:raise:RuntimeError",
-   "F:ret_class", "F:unyt_quantity", "F:unyt_array", "F:unyt_array", "F:ret_class",
-   "W:multiply(out=out)", "W:out.units", "F:Unit", "W:out.units"]
+   "W:multiply(out=out_func)", "W:out.units", "F:Unit", "W:out.units"]
 
 end Order
+
+/-- the post-multiplication works on the raw buffer: it does not re-enter `__array_ufunc__` -/
+def fixupReenters : Bool := false
 
 /-- every `out=` of an equivalence's `_convert` goes through `_get_out`, … -/
 def equivalenceOutExpr : String := "self._get_out(x)"
